@@ -2474,7 +2474,13 @@ impl<'ast> Check<'ast> for &'ast Ast<'ast> {
                         },
                     )))
                 } else {
-                    Ok(())
+                    // A type in term position evaluates to the corresponding contract. There is
+                    // no proper type for contracts currently: they are given the type `Dyn`, as in
+                    // the signatures of the `std.contract` module. Leaving the expected type
+                    // unconstrained would accept a contract wherever a number, a string, a
+                    // function, etc. is expected.
+                    ty.unify(mk_uniftype::dynamic(), state, &ctxt)
+                        .map_err(|err| err.into_typecheck_err(state, self.pos))
                 }
             }
         }
